@@ -28,9 +28,9 @@ CLAIMED = {
     technique='Coq proof + correspondence + decision-table oracle',
     design='6 C04'),
  'C07': dict(
-    text='Theorems (all configurations, all search strings): every unfolded result is typed with no unapplied query, no duplicates, sorted, the only error raised is SpilException, the "," alternatives of the path part are distributed as a cartesian product. The full denotation (aliases, "**" to leaf types, narrowing, query application per typed search) is an executable specification written from the property text, independent of model and code, compared with the implementation on every generated search; the model pipeline (extensions, or_op, expand, narrow, extrapolate, line by line) is compared with the implementation call by call.',
-    note=TB + 'PARTIAL: the refinement "pipeline = denotation" is not a theorem; it is checked by the python denotation oracle and by correspondence.',
-    technique='Coq proof of the structural clauses + executable denotation oracle + correspondence',
+    text='Theorems (all configurations, all search strings): every unfolded result is typed with no unapplied query, no duplicates, sorted, the only error raised is SpilException, the "," alternatives of the path part are distributed as a cartesian product. Refinement theorems (all configurations passing the decidable guards, all plain search strings, all url-safe queries): the model pipeline (extensions, or_op, expand, type narrowing) returns exactly the declarative denotation of Search/UnfoldSpec.v - bodies = product of "," alternatives with aliases replaced by members; per body every template accepting it, or for "/**" every number of "/*" levels completing it to a leaf type of the root\'s basetype; each url-safe query choice applied through the C04 table; basetype narrowing - and raises SpilException exactly when a body has several "/**" or a "/**" on a root without leaf key. An executable specification written from the property text, independent of model and code, is also compared with the implementation on every generated search (it covers the queries outside the url-safe fragment); the model pipeline is compared with the implementation call by call.',
+    note=TB + 'PARTIAL only outside the guards: queries with percent escapes / ";" / "+" / blank values, bodies containing "?" ":" newline or the internal start marker, and configurations with typed narrowing are covered by the python denotation oracle and correspondence, not by the refinement theorems.',
+    technique='Coq proof (refinement of the unfolding pipeline to a declarative denotation) + executable denotation oracle + correspondence',
     design='6 C07'),
  'C08': dict(
     text='Theorems: glob2re with python re.match equals the glob relation ("*" = any run without "/", other characters literal; None iff a "[...]" class is formed), matching is segment-wise with equal segment counts; FindInList star search returns, each once, exactly the entries matching at least one search form; results are entries of the list. Differential run + oracle (independent glob matcher over the implementation\'s unfolded forms) over generated universes (hierarchies, leaf-only, near-miss / untyped / duplicate entries), incl. Sid.match.',
